@@ -111,6 +111,7 @@ class RunBundler:
         # a cache of stream_resource uid to the data_keys that stream_resource collects for
         self._stream_resource_data_keys: dict[str, Iterable[str]] = dict()  # noqa: C408
         self.run_is_open = False
+        self._monitors_suspended = 0  # nesting depth of suspend_monitors()
         self._uncollected: set[HasName] = set()  # objects after kickoff(), before collect()
         # we expect the RE to take care of the composition
         self._md = md
@@ -631,12 +632,19 @@ class RunBundler:
         self.reset_checkpoint_state()
 
     async def suspend_monitors(self):
-        for obj, (cb, kwargs) in self._monitor_params.items():  # noqa: B007
-            obj.clear_sub(cb)
+        # pauses and suspensions may nest: unsubscribe on the first, re-subscribe on the last
+        self._monitors_suspended += 1
+        if self._monitors_suspended == 1:
+            for obj, (cb, kwargs) in self._monitor_params.items():  # noqa: B007
+                obj.clear_sub(cb)
 
     async def restore_monitors(self):
-        for obj, (cb, kwargs) in self._monitor_params.items():
-            obj.subscribe(cb, **kwargs)
+        if self._monitors_suspended == 0:
+            return
+        self._monitors_suspended -= 1
+        if self._monitors_suspended == 0:
+            for obj, (cb, kwargs) in self._monitor_params.items():
+                obj.subscribe(cb, **kwargs)
 
     async def clear_checkpoint(self, msg):
         self._sequence_counters_copy.clear()
